@@ -87,4 +87,15 @@ def trailersPreserve (code : Int) (msg : Bytes) (details : List Detail) (t : Sta
    | some s => s.code == code && s.message == msg && s.details == details
    | none => details.isEmpty)
 
+/-- "The strict codecs decode what they encode", for one encoding observed in a sequence of
+calls: `snap` are the bytes the call returned, `final` the bytes of that same result after
+all later calls of the sequence, `dec` whether `final` decodes (strictly) to the message that
+was encoded.  A result is a value: later calls leave it alone, and it decodes to its own
+message whenever it is used. -/
+def encodingKept (snap final : Bytes) (dec : Bool) : Bool := final == snap && dec
+
+/-- the same for what `Unmarshal` returned: it equals the encoded message right after the call
+and still after the caller recycled the data buffer and made further calls -/
+def decodingKept (eqNow eqEnd : Bool) : Bool := eqNow && eqEnd
+
 end ConfModel.ConvertSpec
